@@ -80,6 +80,24 @@ func c11Content(g *Gen) string {
 	if g.Chance(1, 10) {
 		n = 0
 	}
+	if g.Chance(1, 8) {
+		// several read blocks of short lines: retrieval in any order, from any block, after any other retrieval
+		n = 200 + g.Intn(500)
+		var sb strings.Builder
+		for i := 0; i < n; i++ {
+			switch g.Intn(8) {
+			case 0:
+				fmt.Fprintf(&sb, "0.0.0.0 h%04d.example\n", i)
+			case 1:
+				fmt.Fprintf(&sb, "example.org##.c%d\n", i)
+			case 2:
+				sb.WriteString("! " + strings.Repeat("c", g.Intn(90)) + "\n")
+			default:
+				fmt.Fprintf(&sb, "||example%04d.org^\n", i)
+			}
+		}
+		return sb.String()
+	}
 	eol := Pick(g, []string{"\n", "\n", "\r\n"})
 	var sb strings.Builder
 	if g.Chance(1, 16) {
@@ -257,6 +275,44 @@ func init() {
 							flags += fmt.Sprintf("!RETRIEVE-MISMATCH:idx=%d", e.idx)
 						}
 					}
+				}
+			}
+			// retrieval in a scrambled order from fresh file-backed storages (nothing cached in the storage, so every
+			// retrieval goes to the list, each after a different one): near and far jumps, back and forth between blocks
+			if len(a) > 1 {
+				for pass := 0; pass < 3 && flags == ""; pass++ {
+					var fl3 []filterlist.RuleList
+					for i, sp := range specs {
+						f, ferr := filterlist.NewFileRuleList(sp.id, fmt.Sprintf("%s/l%d.txt", dir, i), sp.ignore)
+						must(ferr)
+						fl3 = append(fl3, f)
+					}
+					fs3, err3 := filterlist.NewRuleStorage(fl3)
+					must(err3)
+					rnd := newRand(int64(len(line)) + int64(pass)*7919)
+					limit := len(a)
+					if limit > 400 {
+						limit = 400
+					}
+					for k := 0; k < limit; k++ {
+						var e ent
+						switch {
+						case pass == 0:
+							e = a[rnd.Intn(len(a))]
+						case k%3 == 0:
+							e = a[rnd.Intn(len(a))]
+						default:
+							// a neighbour of a random position, then back
+							j := rnd.Intn(len(a))
+							e = a[(j+k%7)%len(a)]
+						}
+						rr, rerr := fs3.RetrieveRule(e.idx)
+						if rerr != nil || rr == nil || rr.Text() != e.text || kindOf(rr) != e.kind || rr.GetFilterListID() != e.id {
+							flags += fmt.Sprintf("!RETRIEVE-IN-SCRAMBLED-ORDER-MISMATCH:idx=%d", e.idx)
+							break
+						}
+					}
+					_ = fs3.Close()
 				}
 			}
 			if len(flags) > 300 {
